@@ -3,7 +3,7 @@ stable across restarts.  spec/commit/Commitments.tla + Hardfork.tla; binding: TL
 ordered lists, stored receipt containers, chain ids and of every transition of the restart model is replayed on the real digest
 writers, merkle roots, codecs and on ChainService.checkHardfork over a real ChainDB; a recorded random run of restarts is
 validated by TLC (HardforkTrace.tla)."""
-import json, os, random, threading, time
+import hashlib, json, os, random, threading, time
 import vlib
 
 LEVEL = "model_checking"
@@ -101,6 +101,19 @@ def run(c):
                      "TLC 1.8.0"]
     box = {}
     threads = []
+
+    # The harnesses of this check are built concurrently.  vlib.gen_overlay rewrites <BUILD>/overlay.json on every call, so a
+    # `go test -c` of one thread could read the file while another thread (or another check) truncates it.  This check
+    # therefore uses an overlay of its own, generated once per run (helper kept here; tools/vlib.py is not changed).
+    vlib.BUILD = os.path.join(vlib.WORK, "build-c19-" + hashlib.sha1(vlib.REPO.encode()).hexdigest()[:10])
+    orig_gen, gen_lock, gen_done = vlib.gen_overlay, threading.Lock(), {}
+
+    def gen_once():
+        with gen_lock:
+            if "p" not in gen_done:
+                gen_done["p"] = orig_gen()
+            return gen_done["p"]
+    vlib.gen_overlay = gen_once
 
     def bg(key, fn):
         def w():
